@@ -324,6 +324,23 @@ def f(n: INT64[...], x: FLOAT[...]):
     return 2 - n, 7 / x, 3 - x, 2 * n, 1.5 + x, 10 - n * 2, 2 ** n, 2.0 ** x, 5 % n
 ''', ["n:I:3 x:F:3"])
 
+P("global_named_like_a_parameter_in_if", '''
+flag = True
+c = True
+
+@script()
+def f(x: FLOAT[...], c: BOOL, flag: bool = False):
+    if flag:
+        y = x + 1.0
+    else:
+        y = x - 1.0
+    if c:
+        z = y * 2.0
+    else:
+        z = y * 3.0
+    return z
+''', ["x:F:2 c:B:"], [{}, {"flag": True}])
+
 P("same_named_subfunctions_in_two_domains", '''
 from onnxscript.values import Opset
 
